@@ -5,6 +5,7 @@ pub mod c15;
 pub mod c16;
 pub mod c17;
 pub mod c19;
+pub mod c20;
 
 type RunFn = fn(&Ctx) -> i32;
 type ReplayFn = fn(&Ctx, &Value) -> Result<(bool, String), String>;
@@ -15,6 +16,7 @@ fn table(prop: &str) -> Option<(RunFn, ReplayFn)> {
         "C16" => (c16::run, c16::replay),
         "C17" => (c17::run, c17::replay),
         "C19" => (c19::run, c19::replay),
+        "C20" => (c20::run, c20::replay),
         _ => return None,
     })
 }
